@@ -16,7 +16,7 @@ PROPERTY = "C16"
 
 META = {
     "bounds": {
-        "quick": "17 template programs (one of realistic size: macros applying macros, named scope, three `*=` blocks, relocated part) + the 2 repository samples; one layout change at a time at every applicable position: indentation (1-2 chars of {space,tab}), trailing spaces (1-2), spaces next to operators/commas/brackets, blank lines, full-line and end-of-line ; comments and /* */ comments with 0, 1 and 2 symbolic body characters, per-letter case of every mnemonic / suffix / index register / hex literal; every contiguous balanced statement run of <= 5 lines (whole macro definitions / scopes included) moved into an .include file (runs of <= 2 lines also into a file without a final newline); data values symbolic",
+        "quick": "18 template programs (one of realistic size: macros applying macros, named scope, three `*=` blocks, relocated part) + the 2 repository samples; one layout change at a time at every applicable position: indentation (1-2 chars of {space,tab}), trailing spaces (1-2), spaces next to operators/commas/brackets, blank lines, full-line and end-of-line ; comments and /* */ comments with 0, 1 and 2 symbolic body characters, comments spelling keywords / braces (`; else`, `; }`, `; {`, `/* else */`, `; .if 1 {`), per-letter case of every mnemonic / suffix / index register / hex literal; every contiguous balanced statement run of <= 5 lines (whole macro definitions / scopes included) moved into an .include file (runs of <= 2 lines also into a file without a final newline); data values symbolic",
         "thorough": "same with 3 symbolic comment characters, pairs of simultaneous changes (VERIF_SEED-drawn 300 pairs), include runs of <= 8 lines",
     },
     "outside": ["compositions of more than two changes", "layout changes not listed in the property (tabs before operands, spaces before ':' ...)", "comment bodies longer than 3 characters"],
@@ -45,6 +45,8 @@ TEMPLATES = [
     # a program of realistic size and mix (macros applying macros, loop in a macro, named scope with exported labels,
     # second `*=` block, relocated routine, forward references)
     "*=0x8000\nk := 0x12\n.macro store(addr, val) {\nlda.w #val\nsta.l addr\n}\n.macro fill(base, n) {\n.for i := 0, n {\nstore(base + i * 2, i)\n}\n}\n.scope gfx {\ninit:\nfill(0x7e2000, 2)\nrts\ntable:\n.dw table, v + k\n}\n*=0x018000\nmain:\njsr.w gfx.init\nloop:\ndex\nbne loop\n.dl gfx.table, fwd\nstore(fwd, k & 0xff)\n@=0x7e1000\nram:\nlda 0x10,x\njmp.w ram\n*=0x028000\nfwd:\n.db 1, 2\n.dl main, ram\n",
+    # a conditional without else directly followed by a block (a comment in between must stay a comment)
+    "*=0x8000\n.if v {\nlda #1\n}\n{\nldx #2\n}\n.if v & 1 {\nnop\n}\n.for i := 0, 2 {\n.db i\n}\nend:\n.dl end\n",
     # mnemonics that exist with and without an operand, operands of a single character
     "*=0x8000\nn := 3\nasl\nasl 4\ninc\ndec n\ninc 5\nror\nrol 7\nnop\n",
     # string literals holding layout characters: TAB, runs of spaces, comment openers
@@ -128,7 +130,7 @@ def jobs(tier, seed):
         atoms, sites = analyse(text)
         assert "".join(atoms) == text, (text, atoms)
         for si, site in enumerate(sites):
-            variants = {"between": ["blank", "linecomment", "blockcomment", "blockcomment-inline", "blockcomment-empty", "blockcomment-short", "linecomment-empty"], "indent": ["1", "2"], "trailing": ["1", "2"], "space": ["1"], "case": ["letters"], "eolcomment": ["c"]}[site[0]]
+            variants = {"between": ["blank", "linecomment", "blockcomment", "blockcomment-inline", "blockcomment-empty", "blockcomment-short", "linecomment-empty", "kw-else", "kw-else-tight", "kw-close", "kw-open", "kw-block-else", "kw-if"], "indent": ["1", "2"], "trailing": ["1", "2"], "space": ["1"], "case": ["letters"], "eolcomment": ["c"]}[site[0]]
             for v in variants:
                 out.append({"id": f"t{ti:02d}/{site[0]}{si:03d}/{v}", "fam": "slot", "tpl": ti, "sites": [[si, v]], "nc": 2 if tier == "quick" else 3})
         nlines = text.count("\n")
@@ -180,6 +182,10 @@ def _slot_chars(cx, tag, kind, variant, ncomment):
         return [ord(";")] + [cx.char(f"{tag}_{k}", NONL) for k in range(ncomment)] + [0x0A]
     if variant == "linecomment-empty":
         return [ord(";"), 0x0A]
+    KW = {"kw-else": "; else\n", "kw-else-tight": ";else\n", "kw-close": "; }\n", "kw-open": "; {\n", "kw-block-else": "/* else */\n", "kw-if": "; .if 1 {\n"}
+    if variant in KW:
+        # comments whose text spells a keyword or a brace: still comments
+        return [ord(c) for c in KW[variant]]
     if variant in ("blockcomment-empty", "blockcomment-short"):
         # comments of 0 and 1 body characters (the 1-character body may be '*' or '/': `/***/`, `/*/*/`)
         ncomment = 0 if variant == "blockcomment-empty" else 1
